@@ -291,9 +291,9 @@ func (p *Prop) Run(t *simhook.Tape, opt simkit.RunOpt) *simkit.RunResult {
 	case 0:
 		nvals = g.Range(0, 6)
 	case 1:
-		nvals = g.Range(0, 40)
+		nvals = g.BoundarySize(0, 40)
 	default:
-		nvals = g.Range(0, 200)
+		nvals = g.BoundarySize(0, 200)
 	}
 	xs, fam := genValues(g, nvals)
 	if opt.Counting {
